@@ -72,6 +72,8 @@ struct R {
     pause: bool,
     /// give up asking for readiness after this many Pending answers
     patience: u32,
+    /// which of the services built by separate `layer()` calls (sharing the algorithm) is used
+    svc: u32,
 }
 
 #[derive(Clone, Debug)]
@@ -81,11 +83,13 @@ pub struct Cfg {
     /// (poll index, virtual us to let pass)
     advances: Vec<(u64, u64)>,
     last_event: u64,
+    n_svcs: u32,
 }
 
 pub fn gen(rng: &mut Prng) -> Cfg {
     let alg = gen_alg(rng);
     let n = rng.range(3, 12);
+    let n_svcs = if rng.chance(0.3) { 2 } else { 1 };
     let span = 60;
     let mut reqs = vec![];
     let mut last = 0;
@@ -105,13 +109,14 @@ pub fn gen(rng: &mut Prng) -> Cfg {
             drop_poll,
             pause: rng.chance(0.2),
             patience: rng.range(3, 40) as u32,
+            svc: 1 + rng.below(n_svcs) as u32,
         });
     }
     let mut advances = vec![];
     for _ in 0..rng.range(2, 10) {
         advances.push((rng.below(2 * span), *rng.pick(&[1000u64, 5000, 10_000, 11_000, 30_000])));
     }
-    Cfg { alg, reqs, advances, last_event: last + 1 }
+    Cfg { alg, reqs, advances, last_event: last + 1, n_svcs: n_svcs as u32 }
 }
 
 fn map_err(e: &AdaptiveError<PErr>) -> Outcome {
@@ -127,22 +132,24 @@ pub fn run(cfg: &Cfg, seed: u64) -> (Arc<World>, crate::sim::SimStats) {
     let (w, stats, ()) = run_sim(seed, |sim| {
         let w = sim.w.clone();
         let layer = AdaptiveLimiterLayer::new(build_alg(&cfg.alg));
-        let svc = layer.layer(w.probe(1));
+        // separate layer() calls: own in-flight counter each, one shared algorithm
+        let svcs: Vec<_> = (1..=cfg.n_svcs).map(|g| layer.layer(w.probe(g))).collect();
         let (min, max) = (cfg.alg.min as u64, cfg.alg.max as u64);
         let _ = (min, max);
         for (i, r) in cfg.reqs.iter().enumerate() {
             let gate = w.new_gate();
             let req = Req::new(i as u64 + 1, 0, vec![Step { lat: Lat::Gate(gate), out: r.out }]);
-            let mut s = svc.clone();
+            let mut s = svcs[(r.svc - 1) as usize].clone();
             let w2 = w.clone();
             let (pause, patience) = (r.pause, r.patience);
+            let grp = r.svc;
             let a = sim.actor(req.id, move || {
                 boxed(async move {
                     let id = req.id;
                     // ask for readiness, observing (harness in-flight, limit) atomically before each poll
                     let mut pendings = 0u32;
                     let ready = std::future::poll_fn(|cx| {
-                        let inflight = *lock(&w2.st).inflight.get(&1).unwrap_or(&0) as u64;
+                        let inflight = *lock(&w2.st).inflight.get(&grp).unwrap_or(&0) as u64;
                         let limit = s.limit() as u64;
                         let r = s.poll_ready(cx);
                         let code = match &r {
@@ -201,31 +208,33 @@ pub fn run(cfg: &Cfg, seed: u64) -> (Arc<World>, crate::sim::SimStats) {
         for g in 0..n_gates {
             sim.at_poll(cfg.last_event + 1, What::OpenGate(g));
         }
-        let mut s = svc.clone();
-        let w3 = w.clone();
-        let insp = sim.actor(INSPECTOR, move || {
-            boxed(async move {
-                let inflight = *lock(&w3.st).inflight.get(&1).unwrap_or(&0) as u64;
-                w3.log(Ev::Listener { name: "quiescent".into(), a: s.in_flight() as u64, b: inflight });
-                let limit = s.limit() as u64;
-                let mut polls = 0;
-                let r = std::future::poll_fn(|cx| {
-                    polls += 1;
-                    match s.poll_ready(cx) {
-                        Poll::Ready(_) => Poll::Ready(true),
-                        Poll::Pending if polls >= 3 => Poll::Ready(false),
-                        Poll::Pending => Poll::Pending,
-                    }
-                })
-                .await;
-                w3.log(Ev::Listener { name: format!("probe-ready:{}", r as u8), a: inflight, b: limit });
-            })
-        });
         let drain = cfg.last_event + 2 + 50 * (cfg.reqs.len() as u64 + 1);
-        sim.at_poll(drain, What::Start(insp));
+        for g in 1..=cfg.n_svcs {
+            let mut s = svcs[(g - 1) as usize].clone();
+            let w3 = w.clone();
+            let insp = sim.actor(INSPECTOR + g as u64, move || {
+                boxed(async move {
+                    let inflight = *lock(&w3.st).inflight.get(&g).unwrap_or(&0) as u64;
+                    w3.log(Ev::Listener { name: "quiescent".into(), a: s.in_flight() as u64, b: inflight });
+                    let limit = s.limit() as u64;
+                    let mut polls = 0;
+                    let r = std::future::poll_fn(|cx| {
+                        polls += 1;
+                        match s.poll_ready(cx) {
+                            Poll::Ready(_) => Poll::Ready(true),
+                            Poll::Pending if polls >= 3 => Poll::Ready(false),
+                            Poll::Pending => Poll::Pending,
+                        }
+                    })
+                    .await;
+                    w3.log(Ev::Listener { name: format!("probe-ready:{}", r as u8), a: inflight, b: limit });
+                })
+            });
+            sim.at_poll(drain + g as u64 * 8, What::Start(insp));
+        }
         sim.p_yield = 0.0;
         sim.fair_after_poll = Some(cfg.last_event + 1);
-        sim.poll_cap = drain + 64;
+        sim.poll_cap = drain + 128;
     });
     (w, stats)
 }
@@ -319,7 +328,7 @@ pub fn judge(cfg: &Cfg, log: &[Rec]) -> Report {
     }
     rep.count("calls_dropped_or_panicked_in_flight", faults);
     rep.max("distinct_limit_values_in_one_history", limits.len() as u64);
-    rep.bucket(format!("{alg} min={} max={}{}", cfg.alg.min, cfg.alg.max, if cfg.alg.min == cfg.alg.max { " (min=max)" } else { "" }));
+    rep.bucket(format!("{alg} min={} max={}{} services={}", cfg.alg.min, cfg.alg.max, if cfg.alg.min == cfg.alg.max { " (min=max)" } else { "" }, cfg.n_svcs));
     rep.nontrivial = faults >= 1 && limits.len() >= 2;
     rep
 }
@@ -428,5 +437,85 @@ pub fn miri_scenario(sseed: u64) -> Report {
     }
     rep.sig = f.0;
     rep.case = json!({"cfg": format!("{c:?}"), "feedback_calls": n, "limits_seen": v});
+    rep
+}
+
+// ---------------------------------------------------------------------------------------
+// extreme-but-valid configurations, sequential feedback (no concurrency needed): limits near
+// usize::MAX, values that f64 cannot represent exactly, huge increments
+// ---------------------------------------------------------------------------------------
+
+pub fn extreme(sseed: u64) -> Report {
+    crate::sim::install_panic_hook();
+    let mut rng = Prng::new(sseed);
+    let mut rep = Report::default();
+    let big: [usize; 9] = [usize::MAX, usize::MAX - 1, (1usize << 63) + 1025, (1usize << 63) - 1, (1usize << 53) + 1, 1 << 62, u32::MAX as usize, 1000, 3];
+    let max = *rng.pick(&big);
+    let min = match rng.below(4) {
+        0 => max,
+        1 => max - rng.below(3.min((max as u64).saturating_add(1))) as usize,
+        2 => 0,
+        _ => *rng.pick(&[1usize, 2, max / 2, max.saturating_sub(1024)]),
+    }
+    .min(max);
+    let init = *rng.pick(&[max, min, max - (max - min) / 2, 0, usize::MAX]);
+    let c = AlgCfg {
+        vegas: rng.chance(0.5),
+        min,
+        init,
+        max,
+        inc: *rng.pick(&[1usize, 5, 1 << 40, usize::MAX]),
+        dec: *rng.pick(&[0.0, 0.5, 0.9, 1.0, 0.999_999_999]),
+        thr_us: 100,
+        alpha: rng.range(0, 3) as usize,
+        beta: rng.range(1, 6) as usize,
+    };
+    let name = if c.vegas { "vegas" } else { "aimd" };
+    let built = std::panic::catch_unwind(std::panic::AssertUnwindSafe(|| build_alg(&c)));
+    let alg = match built {
+        Ok(a) => a,
+        Err(_) => {
+            rep.violate(format!("C13:{name}:panic-at-extreme-config"), format!("building the algorithm panicked: {}; cfg {c:?}", crate::sim::take_last_panic().unwrap_or_default()));
+            return rep;
+        }
+    };
+    let steps = rng.range(20, 200);
+    let steady = rng.chance(0.3);
+    let mut moved = false;
+    let mut last = alg.limit();
+    for i in 0..steps {
+        // op 4: a steady latency (Vegas then sees no queueing and probes upwards)
+        let op = if steady { 4 } else { rng.below(5) };
+        let r = std::panic::catch_unwind(std::panic::AssertUnwindSafe(|| match op {
+            0 => alg.record_failure(),
+            1 => alg.record_dropped(),
+            2 => alg.record_success(Duration::from_micros(rng.range(1, 90))),
+            3 => alg.record_success(Duration::from_micros(rng.range(101, 50_000))),
+            _ => alg.record_success(Duration::from_micros(50)),
+        }));
+        if r.is_err() {
+            rep.violate(
+                format!("C13:{name}:panic-at-extreme-config"),
+                format!("feedback step {i} (op {op}) panicked: {}; limit before {last}; cfg {c:?}", crate::sim::take_last_panic().unwrap_or_default()),
+            );
+            break;
+        }
+        let l = alg.limit();
+        if l != last {
+            moved = true;
+        }
+        if l < c.min || l > c.max {
+            rep.violate(format!("C13:{name}:limit-out-of-bounds"), format!("after feedback step {i} (op {op}) limit() = {l} outside [{}, {}] (previous limit {last}); cfg {c:?}", c.min, c.max));
+            break;
+        }
+        last = l;
+    }
+    rep.count("feedback_steps", steps);
+    rep.bucket(format!("extreme:{name}"));
+    rep.nontrivial = moved;
+    let mut f = Fnv::default();
+    f.add_str(&format!("{c:?}"));
+    rep.sig = f.0;
+    rep.case = json!({"engine": "extreme", "cfg": format!("{c:?}"), "final_limit": last.to_string()});
     rep
 }
